@@ -38,7 +38,7 @@ def main():
     args = ap.parse_args()
     d = os.path.abspath(args.dir)
     meta = json.load(open(os.path.join(d, 'meta.json')))
-    props = (args.props.split(',') if args.props else [meta['property']])
+    props = (args.props.split(',') if args.props else (meta.get('caught_by') or [meta['property']]))
     global REPO
     scratch = None
     if args.scratch:
